@@ -1,6 +1,7 @@
 import TexcraftModel.Lemmas.C06
 import TexcraftModel.Lemmas.C06Print
 import TexcraftModel.Lemmas.C06Scan
+import TexcraftModel.Lemmas.C06Glue
 
 /-!
 # C06 — property theorems
@@ -202,6 +203,92 @@ code (and so the model) gives `-max_dimen`, TeX `+max_dimen`; the hypothesis of
 example : scanDimen false (.const 10 [2,0,0,0,0] none) (.internal (-65536)) = .ok { val := -1073741823, nerr := 1 } ∧
     Spec.scanDimen false (.const 10 [2,0,0,0,0] none) (.internal (-65536)) = .ok 1073741823 1 0 ∧
     negUnitOverflow 20000 0 (.internal (-65536)) = true := by decide
+
+/-! ## Glue -/
+
+/-- `\advance` on glue (with fixes/C06-d.patch) = TeX §1239: widths add (wrapping); a zero
+stretch/shrink of the summand has order normal; equal orders add, otherwise the higher order
+wins unless the register's higher-order component is zero. -/
+theorem advance_glue_eq_knuth (a b : Glue) : (advanceGlue a b).toAR = Spec.advanceGlue a b :=
+  advanceGlue_eq a b
+
+/-- C06-d at its witness (fixed model): `1pt plus 0fil` advanced by `plus 5pt` keeps the 5pt. -/
+example : advanceGlue ⟨65536, 0, 1, 0, 0⟩ ⟨0, 327680, 0, 0, 0⟩ = .set ⟨65536, 327680, 0, 0, 0⟩ := by decide
+
+/-- `\multiply` on glue = §1240: `nx_plus_y` on each of the three components, any failure is
+one "arithmetic overflow" and the register is unchanged. -/
+theorem multiply_glue_eq (a : Glue) (n : Int) : (multiplyGlue a n).toAR = Spec.multiplyGlue a n :=
+  multiplyGlue_eq a n
+
+/-- `\divide` on glue = §1240: `x_over_n` on each component; excluded as for integers:
+a component `-2^31` divided by `-1`. -/
+theorem divide_glue_eq (a : Glue) (n : Int)
+    (hw : -2147483648 ≤ a.width ∧ a.width ≤ 2147483647)
+    (hst : -2147483648 ≤ a.stretch ∧ a.stretch ≤ 2147483647)
+    (hsh : -2147483648 ≤ a.shrink ∧ a.shrink ≤ 2147483647)
+    (hex : ¬ (n = -1 ∧ (a.width = -2147483648 ∨ a.stretch = -2147483648 ∨ a.shrink = -2147483648))) :
+    (divideGlue a n).toAR = Spec.divideGlue a n :=
+  divideGlue_eq a n hw hst hsh hex
+
+example : divideGlue ⟨-7, 7, 1, -2147483648, 0⟩ 2 = .set ⟨-3, 3, 1, -1073741824, 0⟩ := by decide
+
+/-- Full statement of the glue round trip: `\the\skip` followed by scanning gives the glue back
+(zero stretch/shrink having order normal). -/
+def glue_print_scan_roundtrip_full_statement : Prop :=
+  ∀ (g : Glue), (-maxDimen ≤ g.width ∧ g.width ≤ maxDimen) → (-maxDimen ≤ g.stretch ∧ g.stretch ≤ maxDimen) →
+    (-maxDimen ≤ g.shrink ∧ g.shrink ≤ maxDimen) → g.stretchOrder ≤ 3 → g.shrinkOrder ≤ 3 →
+    (g.stretch = 0 → g.stretchOrder = 0) → (g.shrink = 0 → g.shrinkOrder = 0) →
+    ∀ (dec : Nat → List Nat), (∀ n, dec n = (Nat.toDigits 10 n).map (fun c => c.toNat - 48)) →
+    scanGlue
+      (scanGlueWidth false (.const 10 (dec (Spec.printScaled g.width).ip) (some (Spec.printScaled g.width).frac))
+        (.phys .pt) |> fun r => mulSign r (if (Spec.printScaled g.width).neg then -1 else 1))
+      (if g.stretch = 0 then none else some (scanDimen (Spec.printScaled g.stretch).neg
+        (.const 10 (dec (Spec.printScaled g.stretch).ip) (some (Spec.printScaled g.stretch).frac))
+        (unitOfOrder g.stretchOrder)))
+      (if g.shrink = 0 then none else some (scanDimen (Spec.printScaled g.shrink).neg
+        (.const 10 (dec (Spec.printScaled g.shrink).ip) (some (Spec.printScaled g.shrink).frac))
+        (unitOfOrder g.shrinkOrder)))
+      = some (g, 0)
+
+/-- What is proved of it: each printed component — width, stretch, shrink, with unit `pt`,
+`fil`, `fill` or `filll` — is read back by `scan_dimen` as the identical value with no error and
+the same order, *given* a digit string `ds` that `parse_constant` reads as the printed integer
+part. Missing for the full statement: that the decimal digits of `n ≤ 16383` are such a string
+(`scan_int (print_int n) = n`; checked by the correspondence stream `gp`, and in the examples),
+and the assembly of the three components by `scanGlue` (definitional). -/
+theorem glue_print_scan_roundtrip_partial (s : Int) (h : -maxDimen ≤ s ∧ s ≤ maxDimen) (ds : List Nat)
+    (hds : scanConst 10 ds = (((Spec.printScaled s).ip : Int), 0)) (k : Nat) (hk : k ≤ 3) :
+    printScaled s = some (Spec.printScaled s) ∧
+    scanDimen (Spec.printScaled s).neg (.const 10 ds (some (Spec.printScaled s).frac)) (unitOfOrder k)
+      = .ok { val := s, nerr := 0, order := k } := by
+  have hM : maxDimen = 1073741823 := rfl
+  have hp := (print_eq_knuth s h).1
+  refine ⟨hp, ?_⟩
+  by_cases hs : 0 ≤ s
+  · have hip : (((Spec.printScaled s).ip : Nat) : Int) = s / 65536 := by
+      simp only [Spec.printScaled]; omega
+    rw [hip] at hds
+    obtain ⟨frac, h1, h2⟩ := scanDimen_printed s hs h.2 false ds hds k hk
+    have hfr := printScaled_frac s _ hp
+    have e : ((s.natAbs % 65536 : Nat) : Int) = (((s % 65536).natAbs : Nat) : Int) := by omega
+    rw [e, h1] at hfr
+    have hneg : (Spec.printScaled s).neg = false := by simp [Spec.printScaled]; omega
+    rw [hneg, ← Option.some.inj hfr]
+    simpa using h2
+  · have hip : (((Spec.printScaled s).ip : Nat) : Int) = -s / 65536 := by
+      simp only [Spec.printScaled]; omega
+    rw [hip] at hds
+    obtain ⟨frac, h1, h2⟩ := scanDimen_printed (-s) (by omega) (by omega) true ds hds k hk
+    have hfr := printScaled_frac s _ hp
+    have e : ((s.natAbs % 65536 : Nat) : Int) = (((-s % 65536).natAbs : Nat) : Int) := by omega
+    rw [e, h1] at hfr
+    have hneg : (Spec.printScaled s).neg = true := by simp [Spec.printScaled]; omega
+    rw [hneg, ← Option.some.inj hfr]
+    simpa using h2
+
+example : scanGlue (scanGlueWidth false (.const 10 [1] (some [0])) (.phys .pt))
+    (some (scanDimen true (.const 10 [1, 6, 3, 8, 3] (some [9, 9, 9, 9, 8])) (.fil 2))) none
+    = some (⟨65536, -1073741823, 3, 0, 0⟩, 0) := by decide
 
 /-! ## Totality (shared with C09) -/
 
